@@ -142,22 +142,23 @@ def encGeomOwn (v t : Nat) (g : LGeom) : Bytes :=
 
 /-- what a worker sends for one record: `node_id[0..3)` as `REF_GLOB`, `param[0..2)` (zero beyond `type`) -/
 structure GeomMsg where
-  n0 : Int
-  n1 : Int
-  n2 : Int
+  nodeId : List Int
   q0 : UInt64
   q1 : UInt64
   deriving DecidableEq, Repr
 
+/-- the packing loop of a worker; the column each value goes to is regenerated from the C -/
 def packGeom (t : Nat) (g : LGeom) : GeomMsg :=
-  ⟨(g.node : Int), g.id, g.gref, if 0 < t then g.p0 else 0, if 1 < t then g.p1 else 0⟩
+  ⟨(((List.replicate 3 (0 : Int)).set GatherMeshb.packNodeCol (g.node : Int)).set GatherMeshb.packIdCol g.id).set
+      GatherMeshb.packGrefCol g.gref,
+    if 0 < t then g.p0 else 0, if 1 < t then g.p1 else 0⟩
 
 /-- SECOND record writer (received records): vertex `node_id[0] + 1`, id `(REF_INT)node_id[1]`, parameters from the
-    message, `(double)node_id[2]` -/
+    message, `(double)node_id[2]` — the columns read are regenerated from the C -/
 def encGeomRecv (v t : Nat) (m : GeomMsg) : Bytes :=
-  encInt v (m.n0 + 1) ++ encInt v (wrap32 m.n1) ++
+  encInt v (m.nodeId.getD GatherMeshb.recvNodeCol 0 + 1) ++ encInt v (wrap32 (m.nodeId.getD GatherMeshb.recvIdCol 0)) ++
   (if 0 < t then encF64 m.q0 else []) ++ (if 1 < t then encF64 m.q1 else []) ++
-  (if 0 < t then encF64 (i2d m.n2) else [])
+  (if 0 < t then encF64 (i2d (m.nodeId.getD GatherMeshb.recvGrefCol 0)) else [])
 
 def geomBytesFrom (v t : Nat) : Nat → List Rank → Bytes
   | _, [] => []
